@@ -337,7 +337,9 @@ impl Version {
     #[doc = include_str!("../examples/parse.rs")]
     /// ```
     pub fn parse<S: AsRef<str>>(input: S) -> Result<Version, SemverError> {
-        let mut input = input.as_ref();
+        // the parsers advance `input`; errors report against the whole text
+        let original = input.as_ref();
+        let mut input = original;
 
         if input.len() > MAX_LENGTH {
             return Err(SemverError {
@@ -351,8 +353,8 @@ impl Version {
             Ok(arg) => Ok(arg),
             Err(err) => Err(match err {
                 ErrMode::Backtrack(e) | ErrMode::Cut(e) => SemverError {
-                    input: input.into(),
-                    span: (e.input.as_ptr() as usize - input.as_ptr() as usize, 0).into(),
+                    input: original.into(),
+                    span: (e.input.as_ptr() as usize - original.as_ptr() as usize, 0).into(),
                     kind: if let Some(kind) = e.kind {
                         kind
                     } else if let Some(ctx) = e.context {
@@ -362,8 +364,8 @@ impl Version {
                     },
                 },
                 ErrMode::Incomplete(_) => SemverError {
-                    input: input.into(),
-                    span: (input.len() - 1, 0).into(),
+                    input: original.into(),
+                    span: (original.len() - 1, 0).into(),
                     kind: SemverErrorKind::IncompleteInput,
                 },
             }),
